@@ -128,6 +128,10 @@ def gen_case(ctx, idx, stream='case'):
 def build_mask(c):
     """The user's pixel_array for case c (regenerated from the case's own PRNG)."""
     import hd_env
+    if c.get('explicit') is not None:
+        # an explicitly given array (escalated L2 disagreements, hand-written corpus cases)
+        dt = {'bool': np.bool_, 'uint8': np.uint8, 'uint16': np.uint16, 'float32': np.float32, 'float64': np.float64}[c['dtype']]
+        return np.array(c['explicit'], dtype=dt), None
     nr = hd_env.np_rng(PROP, c.get('stream', 'case') + '/pix', c['seed'], c['idx'])
     P, R, C, segs = c['planes'], c['rows'], c['cols'], c['segs']
     S = len(segs)
@@ -661,7 +665,7 @@ def _helpers(ctx, reqs, pending):
         pending.append((case2, 'helper', impl2))
 
 
-def _compare(ctx, reqs, pending):
+def _compare(ctx, reqs, pending, escalate=True):
     answers = ctx.model(reqs)
     if answers is None:
         return
@@ -718,6 +722,30 @@ def _compare(ctx, reqs, pending):
                 ctx.disagree('L2', case, impl['order'], [[s, p] for s, p, _ in m['frames']], 'frame (loop) order')
 
 
+def _escalate_l2(ctx):
+    """DESIGN 5.2: an L2 disagreement on `_check_and_cast_pixel_array` / `_get_segment_pixel_array` is replayed
+    through the public API (constructor + read-back + oracle) and counts only through what that shows."""
+    done = 0
+    reqs, pending = [], []
+    for d in list(ctx.l2_disagreements):
+        case = d.get('case') or {}
+        if case.get('helper') != '_check_and_cast_pixel_array' or done >= 25:
+            continue
+        a = np.array(case['array'])
+        four = a.ndim == 4
+        P, n = a.shape[0], a.shape[2]
+        c = {'idx': case['idx'], 'stream': 'escalated', 'seed': ctx.seed, 'tier': ctx.tier, 'source': 'series', 'planes': P,
+             'rows': 1, 'cols': n, 'src_order': list(range(P)), 'type': case['type'], 'dtype': case['dtype'],
+             'layout': '4d' if four else '3d', 'segs': case['segs'], 'mfv': 255, 'omit': False, 'empty': 'none',
+             'density': 0.5, 'ts': 'Explicit VR Little Endian', 'workers': 0, 'bad': None, 'read_perm_seed': 1,
+             'explicit': case['array']}
+        run_case(ctx, c, reqs, pending, paths=('memory',))
+        done += 1
+    if done:
+        ctx.note(f'{done} L2 helper disagreements replayed through the public API')
+        _compare(ctx, reqs, pending, escalate=False)
+
+
 def _exhaustive_sizes(ctx, reqs, pending):
     """Finite sub-domain enumerated completely: BINARY, 1 x n frames for every n in 1..N and every plane count
     1..P (all residues mod 8 on both sides of 8 pixels, every number of carried bits), both empty-frame policies."""
@@ -750,13 +778,19 @@ def run(ctx):
         c = gen_case(ctx, idx)
         run_case(ctx, c, reqs, pending)
     _compare(ctx, reqs, pending)
+    _after_compare(ctx)
+
+
+def _after_compare(ctx):
+    if ctx.l2_disagreements:
+        _escalate_l2(ctx)
 
 
 def shrink(ctx, failure):
     """Smaller case failing at the same site: fewer planes / rows / cols / segments (content is re-drawn from the
     case's PRNG, so each candidate is simply tried)."""
     case = {k: v for k, v in failure['case'].items() if k not in ('path', 'request', 'order', 'bad_applied')}
-    if 'read_perm_seed' not in case:
+    if 'read_perm_seed' not in case or case.get('explicit') is not None:
         return None
     site = failure.get('site')
     best = failure
